@@ -3,6 +3,11 @@ package main
 import (
 	"bytes"
 	"fmt"
+	"github.com/lugu/qiloop/type/encoding"
+	"github.com/lugu/qiloop/type/value"
+	"io"
+	"reflect"
+	"strings"
 
 	"qv/internal/hx"
 	"qv/internal/wg"
@@ -207,6 +212,7 @@ func runC03(res *hx.Result, rng *hx.Rng, tier string, outdir string) {
 			t.Coq(), ordered.Coq(), inRefl, hx.Hex(enc), hx.Hex(input), rd.class, hx.Hex(rd.data), rd.left, de.class, valOrNil(de.val), de.left),
 			fmt.Sprintf("sig=%s val=%s trail=%x", sig, v.Canon(), trail))
 	}
+	c03DynMembers(res)
 	for _, r := range readerAliasReports {
 		res.Fail("reader-result-overwritten", r)
 	}
@@ -218,4 +224,84 @@ func goTypeParsed(sig string) (struct{}, bool) {
 	_ = o
 	// sigRead reports ocErr both for parse errors and read errors; re-parse explicitly
 	return struct{}{}, parses(sig)
+}
+
+// c03DynMembers: Go types written by hand (what generated code declares for `any`) in which a dynamic
+// value is FOLLOWED by something else: a struct member after it, the next list element, the next map
+// entry.  The reflection decoder hands the stream to value.NewValue for the member and must find the
+// stream exactly behind the value afterwards, whatever kind of reader it was given (a decoder that
+// buffers ahead on a reader without ReadByte loses what it read ahead).
+func c03DynMembers(res *hx.Result) {
+	type event struct {
+		ID   uint32
+		Data value.Value
+		Name string
+	}
+	type pair struct {
+		A value.Value
+		B value.Value
+		N int32
+	}
+	str := func(s string) []byte { return append([]byte{byte(len(s)), 0, 0, 0}, s...) }
+	dynInt := append(str("i"), 5, 0, 0, 0)
+	dynStr := append(str("s"), str("ab")...)
+	dynList := append(append(str("[m]"), 2, 0, 0, 0), append(append([]byte{}, dynInt...), dynStr...)...)
+	cat := func(parts ...[]byte) []byte {
+		var b []byte
+		for _, p := range parts {
+			b = append(b, p...)
+		}
+		return b
+	}
+	u32 := func(n uint32) []byte { return []byte{byte(n), byte(n >> 8), byte(n >> 16), byte(n >> 24)} }
+	cases := []struct {
+		name string
+		doc  []byte
+		mk   func() interface{}
+		want interface{}
+	}{
+		{"struct{ID uint32; Data any; Name string} = (Ims)", cat(u32(7), dynInt, str("left")), func() interface{} { return new(event) }, &event{7, value.Int(5), "left"}},
+		{"struct{ID uint32; Data any; Name string} with a list value", cat(u32(9), dynList, str("x")), func() interface{} { return new(event) },
+			&event{9, value.List([]value.Value{value.Int(5), value.String("ab")}), "x"}},
+		{"struct{A any; B any; N int32} = (mmi)", cat(dynStr, dynInt, u32(3)), func() interface{} { return new(pair) }, &pair{value.String("ab"), value.Int(5), 3}},
+		{"[]any = [m] with three elements", cat(u32(3), dynInt, dynStr, dynInt), func() interface{} { return new([]value.Value) },
+			&[]value.Value{value.Int(5), value.String("ab"), value.Int(5)}},
+		{"map[string]any = {sm} with two entries", cat(u32(2), str("k1"), dynInt, str("k2"), dynStr), func() interface{} { return new(map[string]value.Value) },
+			&map[string]value.Value{"k1": value.Int(5), "k2": value.String("ab")}},
+		{"[]struct{ID; Data any; Name} with two elements", cat(u32(2), u32(1), dynInt, str("a"), u32(2), dynStr, str("b")), func() interface{} { return new([]event) },
+			&[]event{{1, value.Int(5), "a"}, {2, value.String("ab"), "b"}}},
+	}
+	for _, c := range cases {
+		// the encoder writes the documented bytes
+		var buf bytes.Buffer
+		if err := encoding.NewEncoder(encoding.DefaultCap(), &buf).Encode(c.want); err != nil {
+			res.Fail("refl-enc", fmt.Sprintf("%s: reflection encoder fails: %v", c.name, err))
+		} else if !bytes.Equal(buf.Bytes(), c.doc) && !strings.HasPrefix(c.name, "map") {
+			res.Fail("refl-enc-layout", fmt.Sprintf("%s: reflection encoder wrote %x, documented serialization is %x", c.name, buf.Bytes(), c.doc))
+		}
+		for rk := 0; rk <= 4; rk++ {
+			trail := []byte{0xaa, 0xbb, 0xcc}
+			input := append(append([]byte(nil), c.doc...), trail...)
+			var r io.Reader
+			var left func() int
+			if rk == 4 {
+				// a plain io.Reader: no Len, no ReadByte (a connection, a file, a pipe)
+				br := bytes.NewReader(input)
+				r, left = struct{ io.Reader }{br}, br.Len
+			} else {
+				readerKind = rk
+				lr := mkReader(input)
+				r, left = lr, lr.Len
+			}
+			got := c.mk()
+			err := encoding.NewDecoder(encoding.DefaultCap(), r).Decode(got)
+			readerKind = 0
+			if err != nil || !reflect.DeepEqual(got, c.want) || left() != len(trail) {
+				res.Fail("refl-dec", fmt.Sprintf("%s: reflection decoder on %x + 3 trailing bytes through reader kind %d (0 *bytes.Reader, 1 *bytes.Buffer, 2 one byte per Read, 3 data with EOF, 4 plain io.Reader): err=%v, value %+v, expected %+v, %d bytes left (want 3)",
+					c.name, c.doc, rk, err, reflect.Indirect(reflect.ValueOf(got)).Interface(), reflect.Indirect(reflect.ValueOf(c.want)).Interface(), left()))
+			}
+		}
+		res.Count("dyn-member|"+c.name, true)
+		res.Dist("dynamic value followed by more data (hand-written Go types)")
+	}
 }
